@@ -832,12 +832,24 @@ class HexaryTrie:
     @contextlib.contextmanager
     def squash_changes(self):
         scratch_db = ScratchDB(self.db)
+        if self.is_pruning:
+            # The batch works on its own copy of the reference counts, which is
+            # only adopted if the batch is committed. Otherwise an aborted batch
+            # would leave the counts out of sync with the (unchanged) database.
+            batch_ref_count = self._ref_count.copy()
+        else:
+            batch_ref_count = None
+
         with scratch_db.batch_commit(do_deletes=self.is_pruning):
             Trie = type(self)
             memory_trie = Trie(
-                scratch_db, self.root_hash, prune=True, ref_count=self._ref_count
+                scratch_db, self.root_hash, prune=True, ref_count=batch_ref_count
             )
             yield memory_trie
+
+        if self.is_pruning:
+            self._ref_count.clear()
+            self._ref_count.update(batch_ref_count)
 
         if self.root_hash != memory_trie.root_hash:
             try:
